@@ -51,16 +51,62 @@ def sRes (r : Bool × Store) : String := showBool r.1 ++ " " ++ sStore r.2
 
 def pUpd (s : String) : Option Upd :=
   match parseNatList s with
-  | some [n, o, w] => some ⟨n, o, w⟩
+  | some [n, o, w] => some ⟨.set, n, o, w⟩
+  | some [0, n, o, w] => some ⟨.set, n, o, w⟩
+  | some [1, n, o, w] => some ⟨.add, n, o, w⟩
+  | some [2, n, o, w] => some ⟨.rm, n, o, w⟩
   | _ => none
 
 def sPhase : Phase → String
   | .idle => "idle"
   | .willWrite r => "will:" ++ toString r
+  | .willDel n => "del:" ++ toString n
   | .done b => "done:" ++ showBool b
+  | .raised => "raised"
 
 def pSched (s : String) : Option (List Bool) :=
   if s == "-" then some [] else s.toList.mapM fun c => if c == 'A' then some false else if c == 'B' then some true else none
+
+/-- a packed-refs cache: `~` = not loaded, else a packed field -/
+def pCache (s : String) : Option Cache :=
+  if s == "~" then some none else (pPacked s).map some
+
+def sCache : Cache → String
+  | none => "~"
+  | some p => joinList ((sortK p).map fun e => toString e.1 ++ ":" ++ toString e.2)
+
+/-- one operation: `s:n:old:new`, `r:n:old`, `a:n:v`, `p:n` (`old` = `~` for None) -/
+def pOp (s : String) : Option Op :=
+  match s.splitOn ":" with
+  | ["s", n, old, new] =>
+    match n.toNat?, optNat old, new.toNat? with
+    | some n, some old, some new => some (.set n old new)
+    | _, _, _ => none
+  | ["r", n, old] =>
+    match n.toNat?, optNat old with
+    | some n, some old => some (.rm n old)
+    | _, _ => none
+  | ["a", n, v] =>
+    match n.toNat?, v.toNat? with
+    | some n, some v => some (.add n v)
+    | _, _ => none
+  | ["p", n] => n.toNat?.map Op.pack
+  | _ => none
+
+def sResC : Res → String
+  | .ok b => showBool b
+  | .loop => "E:Loop"
+
+/-- `A<op>` / `B<op>` items separated by `;` -/
+def pActs (s : String) : Option (List (Bool × Op)) :=
+  if s == "-" then some [] else
+  (s.splitOn ";").mapM fun e =>
+    match e.toList with
+    | 'A' :: r => (pOp (String.ofList r)).map fun o => (false, o)
+    | 'B' :: r => (pOp (String.ofList r)).map fun o => (true, o)
+    | _ => none
+
+def sStep (r : Res × Store × Cache) : String := sResC r.1 ++ " " ++ sStore r.2.1 ++ " " ++ sCache r.2.2
 
 def handle : List String → String
   | ["set", l, p, n, old, new] =>
@@ -95,6 +141,23 @@ def handle : List String → String
     | some s, some a, some b, some sch =>
       let r := runSched a b sch (s, .idle, .idle)
       sStore r.1 ++ " " ++ sPhase r.2.1 ++ " " ++ sPhase r.2.2
+    | _, _, _, _ => "bad-op"
+  | ["stepc", c, l, p, op] =>
+    match pCache c, pStore l p, pOp op with
+    | some c, some s, some op => sStep (stepC c s op)
+    | _, _, _ => "bad-op"
+  | ["stepf", c, l, p, op] =>
+    match pCache c, pStore l p, pOp op with
+    | some c, some s, some op => sStep (stepF c s op)
+    | _, _, _ => "bad-op"
+  | ["runcc", variant, ca, cb, l, p, acts] =>
+    match pCache ca, pCache cb, pStore l p, pActs acts with
+    | some ca, some cb, some s, some acts =>
+      if variant != "c" && variant != "f" then "bad-op" else
+      let r := runCC (if variant == "c" then stepC else stepF) acts (s, ca, cb)
+      let sp := runSpec (acts.map Prod.snd) s
+      joinList (r.1.map sResC) ++ " " ++ sStore r.2.1 ++ " " ++ sCache r.2.2.1 ++ " " ++ sCache r.2.2.2 ++
+        " coh=" ++ showBool (cohRun acts (s, ca, cb)) ++ " " ++ joinList (sp.1.map sResC) ++ " " ++ sStore sp.2
     | _, _, _, _ => "bad-op"
   | _ => "bad-op"
 
